@@ -36,6 +36,23 @@ check("C04", "rocq-core", "proof",
       "universe for 1 and 2 sources, permutation x source sweeps and random histories (hx-orswot).",
       "Trusted: Coq kernel, hand-written model Orswot.v (BTreeMap/HashMap as gmap), ExtrOcamlBasic extraction + OCaml driver, the Rust executor; "
       "timely-acceptance theorems assume tick >= 1 (known corner K1).")
+check("C05", "rocq-core", "proof",
+      "Theorems in coq/core/Properties/C05.v over Orswot.v, for all reachable replica states a, b: the difference lists a key exactly when the "
+      "peer holds it strictly newer than what the replica holds, or the replica holds nothing and the stamp is not below its cut-off; it carries "
+      "the peer's stamp, as modification if live and removal if tombstoned; applying it in any arrangement (any batch split, interleaving, "
+      "sources) with every operation accepted leaves an empty difference; both batch orders of the implementation are such arrangements; a "
+      "mutual exchange yields identical views. The pre-fix acceptance rule is refuted (removal batch first loses the older put). Tied to "
+      "orswot.rs by exhaustive replica pairs from <= 3 (4)-operation histories and random pairs (hx-orswot mode=c05).",
+      "Trusted: Coq kernel, model Orswot.v, extraction + driver, Rust executor. Repair is conditional on acceptance (within one forgiveness "
+      "period / gap-free); stamps valid with tick >= 1. The actor-level MultiDel/MultiSet path is C02/C01's subject.")
+check("C08", "rocq-core", "proof",
+      "Theorems in coq/core/Properties/C08.v over Orswot.v: a purge keeps live entries and versions, removes exactly the tombstones older than "
+      "their origin's cut-off; the cut-off never moves backwards, so a purged delete stays rejected (any key, any source, after any further "
+      "events); and by a simulation between the purging and the never-purging replica, for every timely event sequence with purges anywhere both "
+      "answer every lookup identically, with the last-writer-wins result (no deleted key reappears, no live key is lost). Tied to orswot.rs by "
+      "exhaustive timely histories x all purge placements, late-arrival and purge-rich random histories (hx-orswot mode=c08).",
+      "Trusted: Coq kernel, model Orswot.v, extraction + driver, Rust executor. Premises: valid stamps, tick >= 1 (K1), operations arrive "
+      "less than one forgiveness period behind what the replica has seen. The hourly purge task and storage.remove_tombstones are C02's subject.")
 check("C09", "rocq-core", "proof",
       "Theorems in coq/core/Properties/C09.v over the model Hlc.v of send/recv, for every clock value, remote stamp and (non-monotone) wall clock: "
       "success => strictly greater, own node id, within drift; failure => clock unchanged with the exact error conditions; lifted by induction to "
@@ -49,6 +66,15 @@ check("C10", "rocq-core", "proof",
       "lexicographic, archive round trip, parse(show t) = t, parse never panics. The model is tied to timestamp.rs by differential execution over a "
       "boundary grid, random stamps and malformed text (hx-ts).",
       "Trusted: Coq kernel, hand-written model Ts.v, ExtrOcamlBasic extraction + OCaml driver, the Rust executor; rkyv's archived u64 modelled as 8 LE bytes.")
+check("C12", "rocq-frame", "proof",
+      "Theorems in coq/frame/Properties/C12.v, for frames of every length and every message value: a frame built by to_view_bytes is accepted "
+      "and delivers the value sent; one exchange returns exactly the handler's reply or its Status (code, message); every single-bit (indeed "
+      "single-byte) corruption, every mismatched trailer and every buffer shorter than size_of::<Archived<T>>()+4 is refused, never cast out of "
+      "bounds, and runs no handler. Tied to rkyv_tooling/view.rs, mod.rs and the request/reply path by differential execution of six message "
+      "types (exhaustive flips/truncations per frame) and in-process RPC exchanges (hx-frame, release and debug builds).",
+      "Trusted: Coq kernel, the hand-written model Crc.v/Frame.v, ExtrOcamlBasic plus the OCaml driver, the Rust executor. rkyv's serializer "
+      "and view are a hypothesis (round-trip law), validated by execution only; crc32fast is modelled as bit-serial CRC-32; hyper body "
+      "reassembly is bypassed by the in-process transport.")
 check("C13", "rocq-registry", "proof",
       "Theorems in coq/registry/Properties/C13.v, for every add/remove history and any handler-key function injective on the pairs in use: a "
       "request is served iff its service was added and not removed since, by the latest such add's instance, else refused; removing one service "
@@ -56,6 +82,15 @@ check("C13", "rocq-registry", "proof",
       "over all histories <= 6 on a 4-name x 3-message universe plus random histories, through the real client and dispatch path in-process.",
       "Trusted: Coq kernel; hand-written model Registry.v; ExtrOcamlBasic + OCaml driver; Rust executor; hash injectivity on pairs in use "
       "(premise; checked for the executor's universe); sequential registry operations; in-process transport hook instead of hyper/TCP.")
+check("C14", "rocq-rpclife", "other",
+      "Specification automaton of the request life-cycle (coq/rpclife/RpcLife.v) with machine-checked theorems about its runs (at most one "
+      "execution, Ok = own reply, no swap, timeout and 2 s connect bounds, result final, no panic; pending possible without a timeout); the real "
+      "client/server are run in turmoil under seeded and bounded-exhaustive partition/hold/release/repair schedules and every observed trace must "
+      "be a run of the automaton; the property's own oracle is evaluated on every outcome.",
+      "Theorems are about the automaton, not about hyper/h2/tokio/TCP; the code <-> automaton link is tested trace inclusion only. turmoil 0.4 "
+      "semantics (silent drop, no retransmission); with the simulation feature one Channel's requests are serialised, so multiplexing is exercised "
+      "only across two connections.",
+      "Rocq/Coq specification automaton + deterministic-simulation (turmoil) differential")
 check("C15", "rocq-selector", "proof",
       "Theorems in coq/selector/Properties/C15.v for all layouts, all cursor values (hence all histories), all levels and all RNG choices: "
       "selections are duplicate-free, exclude the local node, stay inside the membership of the last update, have >= required nodes (exactly n for "
